@@ -372,6 +372,13 @@ def r18d(ctx):
     f = bt.file
     workv = next((dotted(x.test) for x in walk_no_nested(bt.node) if isinstance(x, ast.While) and isinstance(x.test, ast.Name)), "work")
     region = class_helpers(m, bq, bt)
+    # module-level helpers of the builder module that are handed the work stack (`_is_being_expanded(work, child)`)
+    for c in walk_no_nested(bt.node):
+        if isinstance(c, ast.Call) and isinstance(c.func, ast.Name) and any(dotted(a) == workv for a in c.args):
+            r_ = m.resolve_expr(bt.module, c.func)
+            h_ = m.functions.get(r_[0][1]) if r_ and r_[0] and r_[0][0] == "func" else None
+            if h_ is not None and h_.qual not in [x.qual for x in region]:
+                region.append(h_)
     # names under which the work stack is known in each function of the region (parameter aliasing through self-calls)
     stack_names = {bt.qual: {workv}}
     changed = True
@@ -379,9 +386,13 @@ def r18d(ctx):
         changed = False
         for g in region:
             for c in walk_no_nested(g.node):
+                h = None
                 if isinstance(c, ast.Call) and isinstance(c.func, ast.Attribute) and isinstance(c.func.value, ast.Name) and c.func.value.id == "self":
                     h = m.method(bq, c.func.attr)
-                    if h is None or h.qual not in [x.qual for x in region]:
+                elif isinstance(c, ast.Call) and isinstance(c.func, ast.Name):
+                    h = next((x for x in region if x.cls is None and x.node.name == c.func.id), None)
+                if h is not None:
+                    if h.qual not in [x.qual for x in region]:
                         continue
                     hp = [p_ for p_ in func_params(h.node) if p_ != "self"]
                     for k_, a in enumerate(c.args):
